@@ -70,6 +70,13 @@ namespace vh::pk {
     }
 
     int workers(RunCtx& ctx) { return (int) ctx.params.get("rt.workers", 1); }
+    bool steals(RunCtx& ctx)
+    {
+        int64_t mode = ctx.params.get("rt.mode", -1);
+        int pol = policy(ctx);
+        return pol != POL_STATIC && pol != POL_STATIC_PRIO && (mode == -1 || (mode & 0x4)) && workers(ctx) >= 2 &&
+            ctx.params.get("rt.min_steal_pending", 0) == 0 && ctx.params.get("rt.min_steal_staged", 0) == 0;
+    }
     int policy(RunCtx& ctx) { return (int) ctx.params.get("rt.policy", 1); }
 
     static std::vector<std::string> build_args(RunCtx& ctx, std::string const& pre)
